@@ -137,9 +137,21 @@ pub fn judge(out: &mut RunOut, sub: u64, s: &Signed, f: &Fault, tag: &str, prop:
         return "VIOLATION";
     }
     if !same_report {
-        out.violate(sub, &format!("report-changed-but-valid:{}:{}:{}", s.fmt.name(), s.kind, f.kind()),
+        let d = first_diff(&s.clean.json, &rep.json, "");
+        // root cause class: the reader fell back to an earlier manifest of the same store
+        let rollback = match (rep.active_label(), s.clean.active_label()) {
+            (Some(n), Some(o)) => n != o && s.clean.json.get("manifests").and_then(|m| m.get(n)).is_some(),
+            _ => false,
+        };
+        let fp = if rollback {
+            format!("rollback-to-earlier-manifest:{}:{}", s.fmt.name(), s.kind)
+        } else {
+            format!("report-changed-but-valid:{}:{}:{}", s.fmt.name(), s.kind, f.kind())
+        };
+        out.violate(sub, &fp,
             "C01 Valid/Trusted => reported manifest content unchanged",
-            json!({"scenario": tag, "fault": f.describe(), "state": rep.state}));
+            json!({"scenario": tag, "fault": f.describe(), "state": rep.state, "first_difference": d,
+                   "codes_equal": rep.codes == s.clean.codes}));
         return "VIOLATION";
     }
     "valid_confined"
@@ -232,5 +244,39 @@ impl Property for C01 {
         }
         out.digest = hash_str(&format!("{tag}|{}|{:?}", faults.len(), tally));
         out
+    }
+}
+
+/// Path and values of the first difference between two JSON values.
+pub fn first_diff(a: &serde_json::Value, b: &serde_json::Value, path: &str) -> String {
+    use serde_json::Value as V;
+    match (a, b) {
+        (V::Object(x), V::Object(y)) => {
+            for (k, v) in x {
+                match y.get(k) {
+                    None => return format!("{path}/{k}: missing on the right"),
+                    Some(w) if w != v => return first_diff(v, w, &format!("{path}/{k}")),
+                    _ => {}
+                }
+            }
+            for k in y.keys() {
+                if !x.contains_key(k) {
+                    return format!("{path}/{k}: missing on the left");
+                }
+            }
+            "equal".into()
+        }
+        (V::Array(x), V::Array(y)) => {
+            for (i, (v, w)) in x.iter().zip(y.iter()).enumerate() {
+                if v != w {
+                    return first_diff(v, w, &format!("{path}[{i}]"));
+                }
+            }
+            format!("{path}: array length {} vs {}", x.len(), y.len())
+        }
+        _ => {
+            let f = |v: &V| serde_json::to_string(v).unwrap_or_default().chars().take(120).collect::<String>();
+            format!("{path}: {} vs {}", f(a), f(b))
+        }
     }
 }
